@@ -891,8 +891,18 @@ func runOverlap(c OverlapCase) string {
 		if !amb && tgt != chain[len(chain)-1] {
 			return fmt.Sprintf("point %d (%d,%d): target is widget %d, the deepest widget under the pointer is %d", i, op.Col, op.Row, tgt, chain[len(chain)-1])
 		}
-		if amb && tgt == chain[len(chain)-1] {
-			harness.R.Label("overlap", "target is on the topmost chain")
+		if amb {
+			// overlapping siblings: the one painted on top (highest z) is
+			// what the user points at. Only a strictly deeper widget under
+			// the pointer elsewhere could also be read as "the deepest"
+			top := chain[len(chain)-1]
+			if tgt == top {
+				harness.R.Label("overlap", "target is on the topmost chain")
+			} else if len(m.pathTo(tgt)) <= len(m.pathTo(top)) {
+				return fmt.Sprintf("point %d (%d,%d): target is widget %d, but widget %d is painted on top of it there (higher z-index) and is at least as deep; delivered %s", i, op.Col, op.Row, tgt, top, entries(routed))
+			} else {
+				harness.R.Label("overlap", "target is a strictly deeper widget under a lower sibling")
+			}
 		}
 		// the target's ancestors: captures root-first before the target,
 		// bubbles nearest-first after it
